@@ -929,3 +929,90 @@ Section CellRuns.
       rewrite Hlook in Hl'. injection Hl' as <- <- <-. exact Hr.
   Qed.
 End CellRuns.
+
+(* ---------------------------------------------------------------------- *)
+(* 10. Whole runs: what every finished run guarantees about its lattices    *)
+(* ---------------------------------------------------------------------- *)
+Section LatticeRuns.
+  Context {T : Type} (S : Scalar T).
+
+  Lemma stage_lattice_all_ok (sm : smap) (cells : list (cellc * cellsum (T:=T))) :
+    stage_lattice sm cells = Ok tt ->
+    forall c cs b univs, In (c, cs) cells -> cs_lat cs = Some 1%Z ->
+      cs_fill cs = Some (FLat b univs) -> c_compl c = [] ->
+      exists ns nb, count_subsurfs sm (c_lits c) = Ok ns /\ square_nb ns = Ok nb /\
+                    lattice_dims_check nb b = Ok tt.
+  Proof.
+    induction cells as [|[c0 cs0] cells IH]; intros H c cs b univs Hin Hl Hf Hc; [destruct Hin|].
+    cbn [stage_lattice] in H. apply bind_ok in H; destruct H as [[] [H0 H]].
+    destruct Hin as [E|Hin]; [|eapply IH; eauto].
+    injection E as -> ->. rewrite Hl, Hf, Hc in H0. simpl in H0.
+    apply bind_ok in H0; destruct H0 as [ns [Hns H0]].
+    apply bind_ok in H0; destruct H0 as [nb [Hnb H0]].
+    apply bind_ok in H0; destruct H0 as [[] [Hd H0]].
+    exists ns, nb. auto.
+  Qed.
+
+  Lemma to_fillid_flat_size (k : kws (T:=T)) lo b univs :
+    to_fillid k lo = Ok (Some (FLat b univs)) -> Z.of_nat (List.length univs) = bounds_size b.
+  Proof.
+    unfold to_fillid. destruct (k_fill k) as [fr|]; [|discriminate].
+    destruct (k_lat k) as [z|].
+    - destruct (f_bounds fr) as [b'|].
+      + destruct (Z.eqb_spec (bounds_size b') (Z.of_nat (List.length (f_univs fr)))) as [E|E]; [|discriminate].
+        intros [= <- <-]. auto.
+      + destruct lo as [b'|]; [|discriminate].
+        match goal with |- context [(?x =? ?y)%Z] => destruct (Z.eqb_spec x y) as [E|E]; [|discriminate] end.
+        intros [= <- <-]. auto.
+    - destruct (f_bounds fr); [discriminate|]. destruct (hd None (f_univs fr)); discriminate.
+  Qed.
+
+  Lemma parse_cell_fill trs imps rank lo toks (cs : cellsum (T:=T)) :
+    parse_cell S trs imps rank lo toks = Ok cs -> exists k : kws (T:=T), to_fillid k lo = Ok (cs_fill cs).
+  Proof.
+    unfold parse_cell. intros H.
+    apply bind_ok in H; destruct H as [k [Hk H]].
+    apply bind_ok in H; destruct H as [imp [Hi H]].
+    apply bind_ok in H; destruct H as [fid [Hf H]].
+    injection H as <-. exists k. exact Hf.
+  Qed.
+
+  Lemma stage_cells_inv trs imps lat rank (l : list (cellc (T:=T))) cells :
+    stage_cells S trs imps lat rank l = Ok cells ->
+    forall c cs, In (c, cs) cells ->
+    exists r, parse_cell S trs imps r (lookup (c_id c) lat) (c_toks c) = Ok cs.
+  Proof.
+    revert rank cells; induction l as [|c0 l IH]; intros rank cells H c cs Hin.
+    - simpl in H. injection H as <-. destruct Hin.
+    - simpl in H. apply bind_ok in H; destruct H as [cs0 [Hcs H]].
+      apply bind_ok in H; destruct H as [t [Ht H]]. injection H as <-.
+      destruct Hin as [E|Hin]; [injection E as <- <-; eauto|eapply IH; eauto].
+  Qed.
+
+  Theorem run_lattice_ranges_checked (d : deckm (T:=T)) :
+    validate S d = Ok tt ->
+    forall lat trs sm imps cells,
+      parse_lattice (d_latopts d) = Ok lat -> stage_trs S (d_trs d) [] = Ok trs ->
+      stage_surfs S trs (d_surfs d) [] = Ok sm -> imp_cards_check S (d_imps d) = Ok imps ->
+      stage_cells S trs imps lat 0 (d_cells d) = Ok cells ->
+      forall c cs b univs, In (c, cs) cells -> cs_lat cs = Some 1%Z ->
+        cs_fill cs = Some (FLat b univs) -> c_compl c = [] ->
+        exists ns nb, count_subsurfs sm (c_lits c) = Ok ns /\
+          (ns = 2 /\ nb = 1 \/ ns = 4 /\ nb = 2 \/ ns = 6 /\ nb = 3)%nat /\
+          (nb = List.length b \/ nb = bounds_dims b) /\
+          Z.of_nat (List.length univs) = bounds_size b.
+  Proof.
+    intros H lat trs sm imps cells E1 E2 E3 E4 E5 c cs b univs Hin Hl Hf Hc.
+    destruct (validate_ok_stages S _ H) as
+      [lat' [trs' [sm' [imps' [cells' [Hlat [Htrs [Hsurf [Himp [Hcells [_ [Hlatt _]]]]]]]]]]]].
+    rewrite E1 in Hlat; injection Hlat as <-. rewrite E2 in Htrs; injection Htrs as <-.
+    rewrite E3 in Hsurf; injection Hsurf as <-. rewrite E4 in Himp; injection Himp as <-.
+    rewrite E5 in Hcells; injection Hcells as <-.
+    destruct (stage_lattice_all_ok sm cells Hlatt c cs b univs Hin Hl Hf Hc) as [ns [nb [H1 [H2 H3]]]].
+    exists ns, nb. split; [exact H1|]. split; [apply square_nb_exact; exact H2|].
+    split; [apply lattice_dims_exact; exact H3|].
+    destruct (stage_cells_inv _ _ _ _ _ _ E5 c cs Hin) as [r Hr].
+    destruct (parse_cell_fill _ _ _ _ _ _ Hr) as [k Hk]. rewrite Hf in Hk.
+    eapply to_fillid_flat_size; eauto.
+  Qed.
+End LatticeRuns.
